@@ -516,6 +516,44 @@ func (c *Ctx) nexusFirst() {
 		}
 		return true
 	})
+	if !okIt {
+		// the same walk written as a counting loop, over the field or over a local holding it
+		for _, cl := range callsIn(it.Decl.Body, false) {
+			id, isId := unparen(cl.Fun).(*ast.Ident)
+			if !isId || info.Uses[id] != cb || len(cl.Args) != 2 {
+				continue
+			}
+			container, isElem := c.loopElement(info, it.Decl.Body, cl, cl.Args[1], sub(it.Decl))
+			if !isElem {
+				continue
+			}
+			if container != "$R.trees" {
+				for _, st := range it.Decl.Body.List {
+					if as, isAs := st.(*ast.AssignStmt); isAs && len(as.Lhs) == 1 && len(as.Rhs) == 1 {
+						if o := identObj(info, as.Lhs[0]); o != nil && o.Name() == container && c.canon(info, as.Rhs[0], sub(it.Decl)) == "$R.trees" {
+							container = "$R.trees"
+						}
+					}
+				}
+			}
+			upward := false
+			for _, a := range stackTo(it.Decl.Body, cl) {
+				if fs, isFor := a.(*ast.ForStmt); isFor {
+					if inc, isInc := fs.Post.(*ast.IncDecStmt); isInc && inc.Tok == token.INC {
+						if init, isAs := fs.Init.(*ast.AssignStmt); isAs && len(init.Rhs) >= 1 {
+							if tv, has := info.Types[init.Rhs[0]]; has && tv.Value != nil && constKey(tv.Value) == "0" {
+								upward = true
+							}
+						}
+					}
+				}
+			}
+			conds, okc := c.pathConds(info, it.Decl.Body, cl, true)
+			if container == "$R.trees" && upward && okc && len(conds) == 0 {
+				okIt = true
+			}
+		}
+	}
 	c.Check(okIt, "FIRST", "io/nexus.Nexus.IterateTrees/in-order", it.Decl.Pos(), "delivers trees[0], trees[1], ... unconditionally", "Nexus.IterateTrees does not deliver every element of trees in slice order").Clause = "Every tree of a multi-tree file is delivered in file order"
 	// AddTree appends
 	okAdd := false
